@@ -1,5 +1,6 @@
 import Driver.Common
 import TxdbusModel.Obj.Tree
+import TxdbusModel.Obj.TreeProps
 /-!
 Driver for property C16 (exported-object tree).  One operation per line, one output line each.
 Strings travel as the hex of their code points (6 digits each, "-" = empty string).
@@ -16,10 +17,26 @@ Strings travel as the hex of their code points (6 digits each, "-" = empty strin
   origexport <path> <sendable> (<iface>=<token>)*   -> like export with the pre-repair exportObject
 
 A list prints as its items joined by ","; the empty list as "[]".
+
+The combined model `Obj/TreeProps.lean` (objects with declared properties, C16 x C17); declarations in the
+line format of drv_c17 (classes most derived first):
+
+  preset                                       -> ok
+  pclass | piface <name> (<pname> <sig> <r> <w> <e>)* | pdesc <attr> <pname> <iface|~> | pbind
+                                               -> ok | typeerror | declerr
+  pobj <n> <path>                              the instance n was constructed with this path     -> ok
+  pexport <n>                                  -> added <hdr> <arg> <objdict> | raised
+  punexport <path>                             -> removed <hdr> <arg> <ifaces> | raised
+  passign <n> <attr> <val>                     -> ok | raised
+  pset <path> <iface> <pname> <val>            -> ret | err | unknown
+  pmanaged <path>                              -> managed <path>:<objdict>;… | unknown | failed
+  <objdict> = <iface>=<props>,…   <props> = <pname>~<sig>~<val>|… or "[]"     values: N, I<int>, B0, B1, S<hex>
 -/
 open Txdbus.Obj Txdbus.Obj.Tree Driver
 
 namespace C16
+
+open Txdbus.Obj.Props (PVal RawProp EmitsArg ClassDef World Cfg)
 
 def strs (l : List Str) : String :=
   if l.isEmpty then "[]" else ",".intercalate (l.map charsToHex)
@@ -91,6 +108,156 @@ def step (e : Exports) (line : String) : Exports × String :=
     | none => (e, "badinput")
   | _ => (e, "badinput")
 
+
+/-! ### the combined model -/
+
+structure PS where
+  classes : List ClassDef := []      -- reversed: current class is the head
+  bad : Bool := false
+  world : Option World := none
+  paths : List (Nat × Str) := []
+  st : TreeProps.State := TreeProps.State.init
+
+def parseInt? (s : String) : Option Int :=
+  match s.toList with
+  | '-' :: t => (String.ofList t).toNat?.map fun n => -(Int.ofNat n)
+  | _ => s.toNat?.map Int.ofNat
+
+def parseVal? (s : String) : Option PVal :=
+  match s.toList with
+  | ['N'] => some .none
+  | ['B', '0'] => some (.bool false)
+  | ['B', '1'] => some (.bool true)
+  | 'I' :: t => (parseInt? (String.ofList t)).map .int
+  | 'S' :: t => (hexToChars? (String.ofList t)).map .str
+  | _ => none
+
+def showInt (n : Int) : String := if n < 0 then "-" ++ toString n.natAbs else toString n.natAbs
+
+def showVal : PVal → String
+  | .none => "N"
+  | .int n => "I" ++ showInt n
+  | .bool b => if b then "B1" else "B0"
+  | .str s => "S" ++ charsToHex s
+  | _ => "?"
+
+def parseProps : List String → Option (List RawProp)
+  | [] => some []
+  | n :: s :: r :: w :: e :: rest => do
+    let n ← hexToChars? n
+    let s ← hexToChars? s
+    let r ← (if r == "1" then some true else if r == "0" then some false else none)
+    let w ← (if w == "1" then some true else if w == "0" then some false else none)
+    let e ← (match e with
+      | "t" => some EmitsArg.true_ | "f" => some EmitsArg.false_
+      | "i" => some EmitsArg.invalidates | "c" => some EmitsArg.const | _ => none)
+    let tl ← parseProps rest
+    pure (⟨n, s, r, w, e⟩ :: tl)
+  | _ => none
+
+def showProps (l : TreeProps.PropDict) : String :=
+  if l.isEmpty then "[]" else
+  "|".intercalate (l.map fun (n, sg, v) => charsToHex n ++ "~" ++ charsToHex sg ++ "~" ++ showVal v)
+
+def showObjDict (d : Table TreeProps.PropDict) : String :=
+  if d.isEmpty then "[]" else ",".intercalate (d.map fun (i, l) => charsToHex i ++ "=" ++ showProps l)
+
+def showPSignal : TreeProps.Signal → String
+  | .interfacesAdded h a d => s!"added {charsToHex h} {charsToHex a} {showObjDict d}"
+  | .interfacesRemoved h a ifs => s!"removed {charsToHex h} {charsToHex a} {strs ifs}"
+
+def env? (d : PS) : Option TreeProps.Env :=
+  d.world.map fun W =>
+    { cfg := Cfg.repaired, W := W, pathOf := fun n => ((d.paths.find? fun e => e.1 == n).map (·.2)).getD [] }
+
+def pstep (d : PS) (op : TreeProps.Op) (showOuts : List Txdbus.Obj.Props.Out → String) : PS × String :=
+  match env? d with
+  | none => (d, "nodecl")
+  | some E =>
+    let r := TreeProps.step E d.st op
+    ({ d with st := r.state },
+      if r.raised then "raised"
+      else if r.sent.isEmpty then showOuts r.outs
+      else " | ".intercalate (r.sent.map showPSignal))
+
+def setOuts (l : List Txdbus.Obj.Props.Out) : String :=
+  match l.getLast? with
+  | some .ret => "ret"
+  | some (.err .unknownObject) => "unknown"
+  | some (.err _) => "err"
+  | _ => "?"
+
+def pline (d : PS) (ws : List String) : PS × String :=
+  match ws with
+  | ["preset"] => ({}, "ok")
+  | ["pclass"] => ({ d with classes := ⟨[], []⟩ :: d.classes }, "ok")
+  | "piface" :: name :: rest =>
+    match d.classes, hexToChars? name, parseProps rest with
+    | c :: cs, some name, some raw =>
+      match Txdbus.Obj.Props.mkIface name raw with
+      | some f => ({ d with classes := { c with ifaces := c.ifaces ++ [f] } :: cs }, "ok")
+      | none => ({ d with bad := true }, "typeerror")
+    | _, _, _ => (d, "badinput")
+  | ["pdesc", a, p, i] =>
+    match d.classes, hexToChars? a, hexToChars? p with
+    | c :: cs, some a, some p =>
+      let i? : Option (Option Str) := if i == "~" then some none else (hexToChars? i).map some
+      match i? with
+      | some i => ({ d with classes := { c with descs := c.descs ++ [⟨a, p, i⟩] } :: cs }, "ok")
+      | none => (d, "badinput")
+    | _, _, _ => (d, "badinput")
+  | ["pbind"] =>
+    if d.bad then (d, "declerr") else
+    match Txdbus.Obj.Props.elaborate d.classes.reverse with
+    | some W => ({ d with world := some W, st := TreeProps.State.init }, "ok")
+    | none => (d, "declerr")
+  | ["pobj", n, p] =>
+    match n.toNat?, hexToChars? p with
+    | some n, some p => ({ d with paths := (n, p) :: d.paths }, "ok")
+    | _, _ => (d, "badinput")
+  | ["pexport", n] =>
+    match n.toNat? with
+    | some n => pstep d (.export n) (fun _ => "?")
+    | none => (d, "badinput")
+  | ["punexport", p] =>
+    match hexToChars? p with
+    | some p => pstep d (.unexport p) (fun _ => "?")
+    | none => (d, "badinput")
+  | ["passign", n, a, v] =>
+    match n.toNat?, hexToChars? a, parseVal? v with
+    | some n, some a, some v => pstep d (.assign n a v) (fun _ => "ok")
+    | _, _, _ => (d, "badinput")
+  | ["pset", p, i, pn, v] =>
+    match hexToChars? p, hexToChars? i, hexToChars? pn, parseVal? v with
+    | some p, some i, some pn, some v => pstep d (.set p i pn v) setOuts
+    | _, _, _, _ => (d, "badinput")
+  | ["pmanaged", p] =>
+    match env? d, hexToChars? p with
+    | some E, some p =>
+      (d, match TreeProps.handleManaged E d.st p with
+        | .managed ents =>
+          "managed " ++ (if ents.isEmpty then "[]" else
+            ";".intercalate (ents.map fun (k, od) => charsToHex k ++ ":" ++ showObjDict od))
+        | .unknownObject _ => "unknown"
+        | .managedFailed => "failed")
+    | _, _ => (d, "badinput")
+  | _ => (d, "badinput")
+
+structure DS where
+  abs : Exports := []
+  ps : PS := {}
+
+def stepAll (d : DS) (line : String) : DS × String :=
+  match words line with
+  | w :: ws =>
+    if w.startsWith "p" && w != "ping" then
+      let r := pline d.ps (w :: ws)
+      ({ d with ps := r.1 }, r.2)
+    else
+      let r := step d.abs line
+      ({ d with abs := r.1 }, r.2)
+  | [] => (d, "badinput")
+
 end C16
 
-def main : IO Unit := Driver.run C16.step ([] : Exports)
+def main : IO Unit := Driver.run C16.stepAll {}
